@@ -578,13 +578,12 @@ func (mem *CListMempool) ReapMaxBytesMaxGas(maxBytes, maxGas int64) types.Txs {
 
 		// Check total gas requirement.
 		// If maxGas is negative, skip this check.
-		// Since newTotalGas < masGas, which
-		// must be non-negative, it follows that this won't overflow.
-		newTotalGas := totalGas + memTx.gasWanted
-		if maxGas > -1 && newTotalGas > maxGas {
+		// totalGas <= maxGas holds here, but totalGas + gasWanted can be
+		// as large as 2*maxGas and overflow: compare without forming the sum.
+		if maxGas > -1 && memTx.gasWanted > 0 && totalGas > maxGas-memTx.gasWanted {
 			return txs[:len(txs)-1]
 		}
-		totalGas = newTotalGas
+		totalGas += memTx.gasWanted
 	}
 	return txs
 }
